@@ -215,6 +215,10 @@ def key_cases(rng, tier):
                     res, log = resolve(s, segs)
                     c.add(t["tid"], f"trav P{ord(sep)}:{T.enc(text)} -", f"{res} cb={','.join(log) or '-'}",
                           f"Path<&str, {sep!r}>({text!r}) as keys on {t['label']} must be the keys {segs!r}", "pathkeys:" + rep)
+                    # the same text handed over by reference (`&Path<String, S>`, the documented `transcode(&path)` idiom)
+                    if rng.random() < 0.35:
+                        c.add(t["tid"], f"trav R{ord(sep)}:{T.enc(text)} -", f"{res} cb={','.join(log) or '-'}",
+                              f"&Path<String, {sep!r}>({text!r}) as keys on {t['label']} must be the keys {segs!r}", "pathkeys-ref:" + rep)
         # the written form of a node (what `Transcode` produces) is the text whose split is the node's keys
         for p in nodes:
             typ = T.node_type(s, p)
